@@ -18,5 +18,8 @@ def run(ctx, out):
     # start-up / shut-down of run_io: every configuration x every single, double (thorough: triple) failure position on the real linux_io.c
     from vlib import startup_tie
     startup_tie.run_startup_tie(ctx, out)
+    # every registration with the event loop (connections, timers) fails in turn: nothing may stay behind
+    from vlib import epctl_enum
+    epctl_enum.run_epctl_enum(ctx, out, "C07")
     out.assumptions += ["allocator: the OS never grants a request of 2^63 bytes or more (hypothesis OsOk of cap_respected)",
                         "timer ledger: address tokens are '_'-free and fewer than 2^32 requests per run (the hypotheses of C03's rid_unique)"]
